@@ -305,9 +305,31 @@ func (e *Engine) lockInvFor(lv *LVal) *LockInv {
 	return nil
 }
 
-func (e *Engine) guardCheck(vc *VC, lv *LVal, write bool) {}
+// rankCheck: locks are acquired in increasing rank order (no lock-order inversion).
+func (vc *VC) rankCheck(lv *LVal, li *LockInv) {
+	if li == nil {
+		return
+	}
+	r, ok := vc.eng.rankOf(li.Type)
+	if !ok {
+		return
+	}
+	for _, h := range vc.st.Held {
+		hr, ok := vc.eng.rankOf(h.inv.Type)
+		if ok && hr >= r {
+			vc.oblige("lock:rank:"+h.inv.Type+"<"+li.Type, []string{"C08"}, "false")
+		}
+	}
+}
 
-func (vc *VC) rankCheck(lv *LVal) {}
+func (e *Engine) rankOf(typ string) (int, bool) {
+	for _, cf := range e.cfiles {
+		if r, ok := cf.Ranks[typ]; ok {
+			return r, true
+		}
+	}
+	return 0, false
+}
 
 func (vc *VC) guardLocs(li *LockInv, self SV) []Loc {
 	var out []Loc
@@ -321,6 +343,15 @@ func (vc *VC) guardLocs(li *LockInv, self SV) []Loc {
 			lv := vc.lvalOfSV(inner, t)
 			n := len(vc.eng.layoutOf(lv.Typ).L)
 			out = append(out, Loc{Space: lv.Space, TK: lv.TK, Lo: lv.Leaf, Hi: lv.Leaf + n, Ref: lv.Ref, Idx: lv.Idx, Desc: m.Expr})
+			continue
+		}
+		if m.All2 {
+			mt, ok := t.Underlying().(*types.Map)
+			if !ok {
+				vc.fail("guard %s[*][*]: not a map of maps", m.Expr)
+			}
+			mi := vc.eng.mapInfoOf(mt.Elem())
+			out = append(out, Loc{Space: 'M', TK: mi.Key, Ref: "*", Desc: m.Expr + "[*][*]"})
 			continue
 		}
 		switch u := t.Underlying().(type) {
@@ -341,13 +372,16 @@ func (vc *VC) guardLocs(li *LockInv, self SV) []Loc {
 	return out
 }
 
-func (vc *VC) lockAcquire(li *LockInv, lv *LVal) {
+func (vc *VC) lockAcquire(li *LockInv, lv *LVal) []Loc {
 	// another goroutine may have changed the guarded state, but only to a state that
 	// satisfies the invariant: havoc what the lock guards, then assume the invariant
 	self := SV{L: []string{lv.Ref}}
-	for _, l := range vc.guardLocs(li, self) {
+	locs := vc.guardLocs(li, self)
+	for _, l := range locs {
 		vc.havocLoc(l)
 	}
+	// guard paths are re-read after the havoc (a guarded pointer field may have changed)
+	locs = vc.guardLocs(li, self)
 	g := vc.evalClause(li.GoName, li.Pkg, []SV{self}, vc.st, vc.entry)
 	vc.assume(g)
 	if vc.fi != nil && !vc.entryAtLock {
@@ -357,6 +391,7 @@ func (vc *VC) lockAcquire(li *LockInv, lv *LVal) {
 			vc.entry = vc.st.clone()
 		}
 	}
+	return locs
 }
 
 func (vc *VC) lockRelease(li *LockInv, lv *LVal, mode int) {
